@@ -433,7 +433,8 @@ func (c *Checker) Finish(w *World, replayer func(r *ObResult) (bool, interface{}
 		}
 	}
 	cov := map[string]interface{}{
-		"obligations":       nOb,
+		"obligations":       nOb - nKnown,
+		"obligations_incl_known_findings": nOb,
 		"discharged":        nDis,
 		"trivially_true":    nTriv,
 		"known_findings":    nKnown,
